@@ -635,6 +635,19 @@ Proof.
   rewrite E. split; [destruct (q_only_if_cached q); discriminate|]. intros Ho. now rewrite Ho.
 Qed.
 
+Lemma second_request_cases cf e q now2 : q_only_if_cached q = false ->
+  second_request cf e q now2 = Hit \/ second_request cf e q now2 = Miss \/ second_request cf e q now2 = Revalidate.
+Proof.
+  intros Ho. unfold second_request. rewrite Ho.
+  destruct (q_flag_no_cache q); [right; left; reflexivity|].
+  destruct (negb (e_public e)); [right; left; reflexivity|].
+  destruct (e_negcached e && (e_expires e <=? now2)%Z); [right; left; reflexivity|].
+  destruct (e_negcached e && (now2 <? e_expires e)%Z && negb (q_nocache_hack q)); [left; reflexivity|].
+  set (r := refresh_check cf e (Some q) now2 0). clearbody r.
+  destruct (negb cfg_offline_mode && negb (reason_is_fresh r)); [|left; reflexivity].
+  destruct (e_last_modified e <? 0)%Z; [right; left; reflexivity|right; right; reflexivity].
+Qed.
+
 Theorem authorization_never_hit_without_permission cf h q p now gap :
   negative_ttl cf <= 0 -> q_has_authorization q = true ->
   simple (join_values (p_cc_vals p)) = true ->
@@ -649,10 +662,8 @@ Proof.
       [apply N1|apply N2|apply N3]; now apply has_sent_with. }
   split; [exact Hnh|]. intros Ho.
   unfold two_requests in *. rewrite Ho in *.
-  unfold second_request in *. rewrite Ho in *.
-  repeat match goal with
-         | |- context [if ?b then _ else _] => destruct b
-         end; try (now left); try (now right); congruence.
+  destruct (second_request_cases cf (first_entry cf h q p now) q (now + gap) Ho) as [H|[H|H]];
+    [congruence|now left|now right].
 Qed.
 
 (* the default settings the model hard-wires, re-read from src/cf.data.pre and RefreshPattern.h on every run *)
